@@ -29,6 +29,9 @@ CLAIMED["C10"] = ("The staking/binding history records (keyGameHistory, keyUnmin
 CLAIMED["C18"] = ("Store steps (SetSyncedTo, ResetSyncedTo, PutWalletStatus, MarkDeleteWallet, withdrawGame, RemoveUnspentByWalletId, putRawUnminedInput, ScriptAddressBalance) run symbolically inside the real db.Update with the index of the failing database call as a symbolic integer (none, or the 1st..8th fallible call: begin, get, prefix scan, iterator, commit). z3 decides that whenever the fault occurred the operation returned an error, and that a failed update left every bucket byte-identical.",
          "Trusted: z3, go/ssa, the model database's fault model (put/delete cannot fail inside a write transaction, as in the LevelDB driver; a failed commit writes nothing). Not covered yet: block/reorg processing, keystore cache repair (RemoveCachedKeystore), worker retries, faults inside LevelDB (DESIGN 5/C18 T1a driver half, T2).", "5/C18")
 
+CLAIMED["C20"] = ("The synchronisation skeleton of the block follower (handle), the background worker (worker, asyncImport, asyncRemove, suspend, resume, PushImport/PushRemove) and WalletManager.Stop/NtfnsHandler.Stop/CloseDB is extracted from the go/ssa form of the current source (select, send, receive, close, WaitGroup operations, deferred calls, constant boolean results of skeleton callees; every other branch nondeterministic), channel capacities are read from the constructors, and the product of the goroutine automata with an environment (2 blocks, 2 queued tasks, one Stop) is unrolled into one bit-vector SMT query over scheduler choices. z3 decides that within the bound there is no state after Stop in which a goroutine of the wait group has not finished and no transition is enabled, and that no wait-group counter goes negative. A deadlock trace is confirmed natively (real handle and suspend/resume on real channels) before it is reported.",
+         "Trusted: z3 4.8.12, go/ssa, the extraction (printed in the evidence, one line per skeleton edge with source position). Assumes calls without synchronisation operations terminate; database/keystore mutexes are not modelled; Start has run. Bound: 24 scheduler steps (36 thorough). Liveness under fairness and the p2p side that fills the queues are outside the claim.", "2.6, 5/C20")
+
 CLAIMED["C09"] = ("The real UtxoStore/TxStore functions (ScriptAddressUnspents, ExistsUtxo, insertUnminedInputs, putRawUnminedInput, fetchUnminedInputSpendTxHashes and the record codecs they use) run symbolically over a model wallet database whose content is an arbitrary valid credit (any hash, index, height, amount, maturity, class) with or without a pending spender recorded by the real writer; z3 decides that the reported spent-by-pending flag equals the existence of that record. One arbitrary stored state and one step: histories of any length reach the step through the stated record invariant.",
          "Trusted: z3, go/ssa, the model database (entry lists, atomic transactions; not LevelDB). Bound: one coin, one wallet, <=3 pending spenders per outpoint. Not yet covered: settle/conflict/rollback steps (DESIGN 5/C09 T2).", "5/C09")
 
